@@ -373,6 +373,7 @@ func (c *pcCtx) closure(x *ast.FuncLit) string {
 	}
 	sub := *c
 	sub.loops, sub.inSwch, sub.resT = nil, 0, sig.Results()
+	sub.helperK = nil
 	sub.ret = func(vals []string) pgNode {
 		if len(vals) != sig.Results().Len() {
 			pgFail("naked return in a function literal")
@@ -419,6 +420,7 @@ func (c *pcCtx) stateClosure(x *ast.FuncLit) (fn string, state []*types.Var) {
 	}
 	sub := *c
 	sub.loops, sub.inSwch, sub.resT = nil, 0, sig.Results()
+	sub.helperK = nil
 	sub.ret = func(vals []string) pgNode {
 		if len(vals) != 1 {
 			pgFail("naked return in a function literal")
@@ -584,6 +586,9 @@ func (c *pcCtx) call(x *ast.CallExpr) (pre []string, code string, mon bool) {
 	case *types.Func:
 		sig := o.Type().(*types.Signature)
 		if fn == nil {
+			if fd := c.helperOf(o); fd != nil { // an unexported helper of the same package: translated in line
+				return c.inlineCall(x, o, recv, fd)
+			}
 			return c.externCall(x, o, recv)
 		}
 		if fn.lit != nil {
